@@ -90,14 +90,14 @@ M = [
  ("M082", ["C09"], TK + "clck_gen.py", "self.clck_src = (self.clck_src + 1) % GSM_HYPERFRAME", "self.clck_src = (self.clck_src + 1) % (GSM_HYPERFRAME + 1)", "frame counter wraps one frame late"),
  ("M083", ["C09"], TK + "clck_gen.py", "if self.clck_src % self.ind_period == 0:", "if self.clck_src % self.ind_period == self.ind_period - 1:", "indications sent at the wrong residue"),
  ("M084", ["C09"], TK + "clck_gen.py", "\t\tself.clck_src = self.clck_start\n", "\t\tif not hasattr(self, 'clck_src'):\n\t\t\tself.clck_src = self.clck_start\n", "frame counter not reset by a restart"),
- ("M085", ["C09"], TK + "clck_gen.py", "\t\t\tfor link in self.clck_links:", "\t\t\tfor link in self.clck_links[:1]:", "indication sent to the first link only"),
+ ("M085", ["C09"], TK + "clck_gen.py", "\t\t\tfor link in list(self.clck_links):", "\t\t\tfor link in list(self.clck_links)[:1]:", "indication sent to the first link only"),
  ("M086", ["C09"], TK + "clck_gen.py", "\t\t\tif dt < 0:", "\t\t\tif dt < -t_tick:", "overruns shorter than a frame are not resynchronised"),
  ("M087", ["C09"], TK + "clck_gen.py", "\t\tself._breaker.clear()\n", "", "breaker not cleared by stop(): restarted generator never ticks"),
  ("M090", ["C14"], TK + "ctrl_if.py", "\t\ttry:\n\t\t\tdata = data.decode()\n\t\texcept UnicodeDecodeError:\n\t\t\tlog.error(\"Non-text data on TRXC interface\")\n\t\t\treturn\n", "\t\tdata = data.decode()\n", "original: non-UTF-8 control datagram raises out of the main loop"),
  ("M091", ["C14"], TK + "ctrl_if.py", "\t\texcept ValueError:\n\t\t\tlog.error(\"Malformed TRXC command", "\t\texcept KeyError:\n\t\t\tlog.error(\"Malformed TRXC command", "original: non-numeric argument raises out of the main loop"),
  ("M092", ["C14"], TK + "data_msg.py", "\t\tif len(msg) < self.HDR_LEN:\n\t\t\traise ValueError(\"Message is to short: missing version specific header\")\n", "", "short datagrams reach the header parser (IndexError / struct.error instead of ValueError)"),
  ("M093", ["C14"], TK + "data_dump.py", "\t\t\tmsg.parse_msg(msg_raw)\n\t\texcept:\n", "\t\t\tmsg.parse_msg(msg_raw)\n\t\texcept IndexError:\n", "capture reader lets parser errors escape"),
- ("M094", ["C14"], TK + "fake_trx.py", "\t\t\t(base, threshold) = (int(request[1]), int(request[2]))\n\t\t\tself.toa256_base = base\n\t\t\tself.toa256_rand_threshold = threshold", "\t\t\tself.toa256_base = int(request[1])\n\t\t\tself.toa256_rand_threshold = int(request[2])", "original: FAKE_TOA applies the base before the threshold is parsed"),
+ ("M094", ["C14"], TK + "fake_trx.py", "\t\t\t(base, threshold) = (int(request[1]), int(request[2]))\n\t\t\tif threshold < 0:\n\t\t\t\tlog.error(\"(%s) FAKE_TOA threshold shall not \"\n\t\t\t\t\t\"be negative\" % self)\n\t\t\t\treturn -1\n\n\t\t\t# Apply both base and threshold\n\t\t\tself.toa256_base = base\n\t\t\tself.toa256_rand_threshold = threshold", "\t\t\tself.toa256_base = int(request[1])\n\t\t\tthreshold = int(request[2])\n\t\t\tif threshold < 0:\n\t\t\t\treturn -1\n\t\t\tself.toa256_rand_threshold = threshold", "FAKE_TOA applies the base before the threshold is parsed / validated"),
  ("M095", ["C14", "C03"], TK + "data_if.py", "\t\tif not self.match_hdr_ver(msg):\n\t\t\treturn None\n\n\t\treturn msg\n\n\tdef recv_rx_msg", "\t\tself.match_hdr_ver(msg)\n\n\t\treturn msg\n\n\tdef recv_rx_msg", "bursts with a non-negotiated header version are queued"),
  ("M096", ["C14", "C12"], TK + "transceiver.py", "\t\t\t\t\"is not running => dropping...\" % (self, msg.desc_hdr()))\n\t\t\treturn None\n", "\t\t\t\t\"is not running => dropping...\" % (self, msg.desc_hdr()))\n", "bursts are queued while powered off"),
  ("M097", ["C14"], TK + "data_dump.py", "\t\tif len(hdr_raw) != self.HDR_LENGTH:\n\t\t\treturn None\n\n\t\t# Attempt to parse it\n\t\trc = self.parse_hdr(hdr_raw)\n\t\tif rc is False:\n\t\t\tlog.error(\"Couldn't parse a message header\")\n\t\t\treturn None\n\n\t\t# Expand the header\n\t\t(msg, msg_len) = rc", "\t\tif len(hdr_raw) == 0:\n\t\t\treturn None\n\n\t\t# Attempt to parse it\n\t\trc = self.parse_hdr(hdr_raw)\n\t\tif rc is False:\n\t\t\tlog.error(\"Couldn't parse a message header\")\n\t\t\treturn None\n\n\t\t# Expand the header\n\t\t(msg, msg_len) = rc", "capture reader parses a cut header (struct.error on a 1-2 octet tail)"),
